@@ -69,8 +69,9 @@ class _AIterator:
         return v
 
 
-def make_async_data(tape, events: Events, *, gate_stream: str = "g", data_stream: str = "d") -> dict:
-    data = W.make_data(tape, data_stream)
+def make_async_data(tape, events: Events, *, gate_stream: str = "g", data_stream: str = "d",
+                    seed: int | None = None) -> dict:
+    data = W.make_data(tape, data_stream) if seed is None else W.make_data_seed(seed)
 
     def f1(x):
         events.ev("call")
